@@ -99,12 +99,36 @@ def run_property(plugin, tier, seed, replay=None, no_build=False):
                     if fn.endswith(".ops"):
                         runs.append(("corpus-" + fn[:-4], ["replay", os.path.join(cdir, fn)]))
             runs += plugin.runs(tier, seed)
+        # EXTRA_RUNS: correspondence runs of ANOTHER area's driver + extracted model that this property's theorems
+        # also rest on (e.g. C10's composition theorem is about the validation model, which hx-val ties to the code).
+        # Only their model / implementation differences count here; their monitors belong to their own properties.
+        extra = []
+        if not replay and hasattr(plugin, "EXTRA_RUNS"):
+            built = {}
+            for (cmd, area, extract_v, tag, argv) in plugin.EXTRA_RUNS(tier, seed):
+                if cmd not in built:
+                    d2, g2 = V.go_build(cmd)
+                    m2 = V.ocaml_build(area, extract_v) if d2 is not None else None
+                    built[cmd] = (d2, m2)
+                    if d2 is None:
+                        broken.append("correspondence %s (driver does not build against the repository)" % cmd)
+                d2, m2 = built[cmd]
+                if d2 is not None:
+                    extra.append((tag, argv, d2, m2))
         def do(r):
+            if len(r) == 4:
+                tag, argv, d2, m2 = r
+                res = V.run_pair(d2, m2, argv, "%s-%s" % (pid, tag), timeout=getattr(plugin, "RUN_TIMEOUT", 1500))
+                res["_driver"], res["_model"], res["_extra"] = d2, m2, True
+                for c in res["cases"]:
+                    c.viol = []
+                res["viol"] = []
+                return res
             tag, argv = r
             return V.run_pair(driver, model if not getattr(plugin, "NO_MODEL_RUNS", ()) or tag.split("-")[0] not in plugin.NO_MODEL_RUNS else None,
                               argv, "%s-%s" % (pid, tag), timeout=getattr(plugin, "RUN_TIMEOUT", 1500))
         with ThreadPoolExecutor(max_workers=getattr(plugin, "PARALLEL", 8)) as ex:
-            results = list(ex.map(do, runs))
+            results = list(ex.map(do, runs + extra))
         tag = getattr(plugin, "VIOL_TAG", None)
         if tag:   # a driver shared by several properties tags its monitor lines; keep this property's
             for r in results:
@@ -224,9 +248,9 @@ def run_property(plugin, tier, seed, replay=None, no_build=False):
             violations.append((path, cc.viol[0], False))
         else:
             small = None
-            if not getattr(plugin, "NO_MINIMISE", False):
+            if not getattr(plugin, "NO_MINIMISE", False) or r.get("_extra"):
                 try:
-                    small = V.minimise(driver, model, c, lambda x: bool(x["mismatch"]))
+                    small = V.minimise(r.get("_driver", driver), r.get("_model", model), c, lambda x: bool(x["mismatch"]))
                 except Exception:
                     small = None
             if small:
